@@ -1,24 +1,32 @@
 """C08 — what lexical writes, lexical parses back to the same value in the same format."""
 import gens
 import vlib
+import fmtcat_rt
 from props import judges
 from props.common import TRUSTED_BASE, ASSUMPTIONS
 
 ID = "C08"
-LEAN_MODULES = ["LexVerif.Props.C08", "LexVerif.Props.C03", "LexVerif.Props.C04", "LexVerif.Props.RoundNE", "LexVerif.Props.Literals.WriteFloatWrite", "LexVerif.Props.Literals.WriteFloatShared", "LexVerif.Props.Literals.ParseFloatParse", "LexVerif.Props.Literals.ParseIntegerAlgorithm", "LexVerif.Props.Literals.WriteIntegerApi", "LexVerif.Props.Literals.CoreLib"]
+LEAN_MODULES = ["LexVerif.Props.C08", "LexVerif.Props.C08Decimal", "LexVerif.Props.C08Parser", "LexVerif.Props.C03", "LexVerif.Props.C04", "LexVerif.Props.RoundNE", "LexVerif.Props.Literals.WriteFloatWrite", "LexVerif.Props.Literals.WriteFloatShared", "LexVerif.Props.Literals.ParseFloatParse", "LexVerif.Props.Literals.ParseIntegerAlgorithm", "LexVerif.Props.Literals.WriteIntegerApi", "LexVerif.Props.Literals.CoreLib"]
 GEN = ["literals"]
 TRUSTED = TRUSTED_BASE + [
-    "the round trip is composed from separately proved halves (C03 writer = numeral, C04 parser = exact scan; oracle exactness) only for plain formats; for flagged formats "
-    "and floats it is measured: the implementation's own parser is run on the implementation's own output",
+    "integers: the round trip is composed from separately proved halves (C03 writer = numeral, C04 parser = exact scan; oracle exactness) for plain formats; for flagged integer formats it is measured",
+    "floats, decimal: proved from the formatting-layer model (tied to the code by the `wf` correspondence of C14/C09) to the documented grammar (tied to the parser model by C12 and to the code by the `pf` "
+    "correspondence); the writer's digits enter as the named hypothesis WriterDigitsShortest (C02; discharged for all zero-mantissa-field floats); the parser's conversion of the literal is C01's",
+    "floats, non-decimal radices and everything else end-to-end: measured — the implementation's own parser is run on the implementation's own output",
 ]
 RULE = ("write with the real writer, parse with the real complete parser in the SAME format with options agreeing on radix, decimal point, exponent character and special strings; "
         "compare bits. Integers: 12 types x radices x sign-flag formats x G-int values. Floats: decimal, power-of-two and mixed-base formats x syntax-flag formats (required/forbidden "
         "signs, required/forbidden exponent notation, exponent-without-fraction, required digits) x options (custom decimal point / exponent character, special strings, trim_floats, "
         "exponent breaks) x G-bits values incl. specials and signed zeros. non-trivial = written ok; distinct = distinct ops")
-TECHNIQUE = "Lean 4 proof (integer round trip on the models from the C03 and C04 theorems; exact value => same bits from roundNE_of_valQ) + write->parse correspondence through the real code for every format/option pair"
-LEVEL_TEXT = ("Proved in Lean: for plain formats and integer types, parse(spec) of the canonical numeral written by the proved writer model returns the value (composition of the C03 and C04 theorems with the "
-              "numeral theory); an exactly written float re-parses to identical bits. For floats in decimal the value equality inherits C01/C02 (not proved); for all flagged formats and option pairs the "
-              "round trip is exercised end-to-end on the real code. Partial proof, stated as such.")
+TECHNIQUE = ("Lean 4 proof (integers: round trip on the models from the C03 and C04 theorems; floats: writer formatting-layer model -> documented grammar of the same format for every valid decimal "
+             "format and compatible option pair, specials, signed zeros, value equality from Spec.shortest via roundNE) + write->parse correspondence through the real code for every format/option pair")
+LEVEL_TEXT = ("Proved in Lean: (integers) for plain formats, parse(spec) of the canonical numeral written by the proved writer model returns the value. (floats, decimal mantissa, any flags / exponent radix) "
+              "roundtrip_float_shape / roundtrip_float_model: whatever the write_float model returns for a finite value is derived in full by the documented grammar of the same format as a number with the written "
+              "sign, exactly the rounded digits and the carried exponent (exact value digits'*10^(sci'-len+1)), for every valid format and every valid option pair agreeing on punctuation and special strings, with one "
+              "exclusion (PrefixClear; negation witness finding_prefix_case); the text is separator-free; roundtrip_special / roundtrip_signed_zero; roundtrip_decimal_value: without a digit limit the bits read back "
+              "equal the bits written given WriterDigitsShortest (C02's open part; discharged for every zero-mantissa-field float of f32/f64 in C08Decimal); roundtrip_float_parser_model composes with C12 down to the "
+              "parser model for formats without separator/prefix. Not proved: non-decimal float radices, C01's conversion inside the parser, C02 in general. Partial proof, stated as such; everything is also "
+              "exercised end-to-end on the real code.")
 LEVEL_NOTE = "Trusted: Lean kernel; C03/C04 model<->code correspondence; differential harness; generators."
 
 
@@ -29,6 +37,8 @@ def feature_sets(tier):
 INT_FLAG_FORMATS = [0xC, 0xC | (1 << 5), 0xC | (1 << 4), 0xC | (1 << 12), 0xC | 0x3]
 FLOAT_FLAG_FORMATS = [0xC, 0xC | (1 << 5), 0xC | (1 << 4), 0xC | (1 << 14), 0xC | (1 << 6), 0xC | (1 << 8), 0xC | (1 << 7), 0xC | (1 << 9),
                       0xC | (1 << 0), 0xC | (1 << 1), 0xC | 0x3, 0xC | (1 << 15), 0xC | (1 << 13)]
+# combinations of the flags the float writer honours (fmtcat_rt.py; Props/C08.lean `roundtrip_float_shape` covers all of them)
+FLOAT_FLAG_COMBOS = sorted(v & 0xFFFFFFFF for v in fmtcat_rt.DECIMAL.values())
 
 
 def int_ops(rng, fs, quick):
@@ -57,8 +67,12 @@ def float_ops(rng, fs, quick):
     fmts = []
     fmts.append((10, 10, 10, 0xC))
     if gens.has_format(fs):
-        for fl in FLOAT_FLAG_FORMATS[1:]:
+        for fl in FLOAT_FLAG_FORMATS[1:] + FLOAT_FLAG_COMBOS:
             fmts.append((10, 10, 10, fl))
+    if "radix" in fs:
+        # decimal mantissa, exponent digits in another radix (the exponent character must not be a digit of it)
+        fmts.append((10, 10, 16, 0xC))
+        fmts.append((10, 10, 2, 0xC))
     if "radix" in fs or "pow2" in fs:
         for r in (2, 4, 8, 16, 32):
             fmts.append((r, r, r, 0xC))
@@ -73,24 +87,78 @@ def float_ops(rng, fs, quick):
             cases = rng.sample(cases[:-8], 260) + cases[-8:]
         for (r, b, er, fl) in fmts:
             f = gens.fmt_hex(gens.pack(r, b, er, flags=fl))
-            echar = 94 if r > 25 else (112 if r >= 15 else 101)
-            for bits in (cases if not quick else rng.sample(cases, 120) + cases[-8:]):
+            combo = r == 10 and (fl in FLOAT_FLAG_COMBOS or er != 10)
+            echar = 94 if (r > 25 or er > 10) else (112 if r >= 15 else 101)
+            nper = (60 if combo else 120) if quick else len(cases)
+            for bits in (cases if not quick else rng.sample(cases, nper) + cases[-8:]):
                 k = rng.random()
                 dp, e = 46, echar
-                if k < 0.2 and r == 10:
+                if k < 0.2 and r == 10 and er == 10:
                     dp, e = rng.choice([(44, 101), (46, 69), (44, 94), (59, 120)])
                 nan, inf = gens.DEF_NAN, gens.DEF_INF
                 if rng.random() < 0.15:
                     nan, inf = gens.hexs(rng.choice(["nan", "NAN", "N"])), gens.hexs(rng.choice(["Inf", "i", "INFINITY"]))
-                o = gens.wopts(exp=e, dp=dp, nan=nan, inf=inf, trim=1 if rng.random() < 0.25 else 0,
+                # digit options (decimal only): min digits pads (value unchanged), max digits rounds (acceptance only)
+                mx, mn = "-", "-"
+                kd = rng.random()
+                if r == 10 and kd < 0.2:
+                    mn = rng.choice([1, 2, 5, 17, 25])
+                elif r == 10 and kd < 0.35:
+                    mx = rng.choice([1, 2, 3, 8, 16])
+                    if rng.random() < 0.3:
+                        mn = rng.choice([1, mx])
+                o = gens.wopts(mx=mx, mn=mn, exp=e, dp=dp, nan=nan, inf=inf, trim=1 if rng.random() < 0.25 else 0,
+                               rnd=rng.choice("rrt"),
                                pb=rng.choice(["-", "-", 1, 30, 400]), nb=rng.choice(["-", "-", -1, -30, -400]))
                 ops.append("wf %s %s %x %s -" % (ty, f, bits, o))
     return ops
 
 
+def bits_of(x, ty):
+    import struct
+    return struct.unpack("<Q", struct.pack("<d", x))[0] if ty == "f64" else struct.unpack("<I", struct.pack("<f", x))[0]
+
+
+def prefix_ops(rng, fs, quick):
+    """decimal formats with a base prefix (`format` + `power-of-two`): the writer never writes the prefix; the parser must
+    still read `0.5`, `0`, `0e0` back (Props/C08.lean `finding_prefix_case`; C12's base-prefix finding seen through C08)"""
+    if not (gens.has_format(fs) and ("radix" in fs or "pow2" in fs)):
+        return []
+    ops = []
+    vals = [0.0, -0.0, 0.5, -0.25, 0.0625, 1.5, 10.0, 1e30, 1e-40, 0.1]
+    for name in ("rt_prefix_x", "rt_prefix_x_cs", "rt_prefix_x_reqexp"):
+        f = gens.fmt_hex(fmtcat_rt.PREFIX[name])
+        for ty in ("f64", "f32"):
+            for x in vals:
+                for (dp, e) in ((46, 101), (88, 101), (46, 88), (44, 94)):
+                    for trim in (0, 1):
+                        ops.append("wf %s %s %x %s -" % (ty, f, bits_of(x, ty), gens.wopts(exp=e, dp=dp, trim=trim)))
+    return ops
+
+
+def special_punct_ops(rng, fs, quick):
+    """special strings that coincide with a punctuation character (nothing in either Options type or in
+    `is_valid_options_punctuation` relates them): Props/C08.lean `finding_special_is_point`"""
+    if not gens.has_format(fs):
+        return []
+    ops = []
+    fmts = [gens.pack(10)] + [fmtcat_rt.NOREQ[n] for n in ("rt_noreq_mant", "rt_noreq_any")]
+    for fmt in fmts:
+        f = gens.fmt_hex(fmt)
+        for ty in ("f64", "f32"):
+            p, eb = gens.FLOAT_TYPES[ty]
+            inf = ((1 << eb) - 1) << (p - 1)
+            for bits in (inf, inf | (1 << (p + eb - 1)), inf | (1 << (p - 2)), bits_of(1.5, ty), 0):
+                for (nan, infs, dp, e) in (("N", "inf", 78, 101), ("NaN", "i", 46, 105), ("n", "I", 46, 110), ("NaN", "i", 105, 101),
+                                           ("NaN", "inf", 46, 101)):
+                    ops.append("wf %s %s %x %s -" % (ty, f, bits, gens.wopts(exp=e, dp=dp, nan=gens.hexs(nan), inf=gens.hexs(infs))))
+    return ops
+
+
 def streams(tier, rng, fs, profile):
     quick = tier == "quick"
-    return [("int-write", int_ops(rng, fs, quick)), ("float-write", float_ops(rng, fs, quick))]
+    return [("int-write", int_ops(rng, fs, quick)), ("float-write", float_ops(rng, fs, quick)),
+            ("float-prefix", prefix_ops(rng, fs, quick)), ("float-special-punct", special_punct_ops(rng, fs, quick))]
 
 
 def nontrivial(op, res):
@@ -116,7 +184,7 @@ def post(ctx, bins):
                 want = "ok %s -" % ops[i].split(" ")[3]
                 if bk != want:
                     viol.append(judges.viol(fs, profile, sname + "/reparse", ops[i], impl[i], want, "complete parser on the written bytes: " + bk))
-        elif sname == "float-write":
+        elif sname in ("float-write", "float-prefix", "float-special-punct"):
             items, idx = [], []
             for i, (op, ir) in enumerate(zip(ops, impl)):
                 it = ir.split(" ")
@@ -140,11 +208,43 @@ def post(ctx, bins):
                     continue
                 want = "nan" if is_nan else "%x" % b
                 bt = bk.split(" ")
+                if o[0] != "-" and not special:
+                    # max_significant_digits set: the digits may be rounded; the text must still be accepted as a finite
+                    # or infinite number of the written sign (the exact digits are the subject of C14)
+                    sign = b >> (p + eb - 1)
+                    if bt[0] != "ok" or bt[1] == "nan" or (int(bt[1], 16) >> (p + eb - 1)) != sign:
+                        viol.append(judges.viol(fs, profile, sname + "/reparse", ops[i], impl[i], "complete parse of the written bytes gives a number of the same sign",
+                                                "implementation re-parse: " + bk))
+                    continue
                 if bt[0] != "ok" or bt[1] != want:
                     viol.append(judges.viol(fs, profile, sname + "/reparse", ops[i], impl[i], "complete parse of the written bytes gives %s" % want,
                                             "implementation re-parse: " + bk))
     ctx["post_evaluations"] = n
     return viol
+
+
+def classify(v):
+    """call-site class of a float re-parse violation (known_findings.json `match.class`)"""
+    if "/reparse" not in v.get("stream", "") or not v["op"].startswith("wf "):
+        return None
+    t = v["op"].split(" ")
+    fmt = int(t[2], 16)
+    pre = (fmt >> 88) & 0xFF
+    it = v["implementation"].split(" ")
+    if it[0] == "ok" and it[1] != "_":
+        text = bytes.fromhex(it[1]).lstrip(b"+-")
+        p, eb = gens.FLOAT_TYPES[t[1]]
+        mag = int(t[3], 16) & ((1 << (p + eb - 1)) - 1)
+        if (mag >> (p - 1)) == (1 << eb) - 1 and text and all(c in (int(t[10]), int(t[11])) for c in text):
+            return "special-string-is-punctuation"
+    if not pre or it[0] != "ok":
+        return None
+    body = bytes.fromhex(it[1]).lstrip(b"+-")
+    if body[:1] != b"0":
+        return None
+    if len(body) >= 2 and body[1] != pre and bytes([body[1]]).lower() == bytes([pre]).lower():
+        return "base-prefix-case-folds-punctuation"
+    return "base-prefix-swallows-leading-zero"
 
 
 def all_digits(outhex, r):
